@@ -433,6 +433,10 @@ example : Invalid wMdl [(0, wv)] [2] :=
     (Needed.root (o := 2) (pop := { inputs := [some 0, some 1], outputs := [some 2] })
       (by decide) (by decide) (by decide)) (by decide) (by decide) (by decide) (by decide)
 
+/-- `[a] → [b]`: `b` is requested, not supplied, not a constant, and nobody produces it. -/
+example : Invalid wMdl [(0, wv)] [1] :=
+  invalid_of_unproduced_output (o := 1) (uniqueProducerB_sound (by decide)) (by decide) (by decide) (by decide)
+
 /-- The code as it stands, warm cache: errors. -/
 example : (run .fixed wMdl true (cacheAfter .fixed wMdl true [⟨[(0, wv), (1, wv)], [2]⟩] none)
     [(0, wv), (0, wv)] [2]).1 = .errPlan .dupInput := by decide
